@@ -62,7 +62,7 @@ def confirm(src_dir, prop, name=None):
         # the agents hard-code their worktree path in some demos: point it at the scratch tree
         txt = open(demo_copy).read()
         for i in range(1, 21):
-            txt = txt.replace(f"/tmp/seed/C{i:02d}r10", work).replace(f"/tmp/seed/C{i:02d}r9", work).replace(f"/tmp/seed/C{i:02d}r8", work).replace(f"/tmp/seed/C{i:02d}r7", work).replace(f"/tmp/seed/C{i:02d}r6", work).replace(f"/tmp/seed/C{i:02d}r5", work).replace(f"/tmp/seed/C{i:02d}r4", work).replace(f"/tmp/seed/C{i:02d}r3", work).replace(f"/tmp/seed/C{i:02d}r2", work).replace(f"/tmp/seed/C{i:02d}", work)
+            txt = txt.replace(f"/tmp/seed/C{i:02d}r11", work).replace(f"/tmp/seed/C{i:02d}r10", work).replace(f"/tmp/seed/C{i:02d}r9", work).replace(f"/tmp/seed/C{i:02d}r8", work).replace(f"/tmp/seed/C{i:02d}r7", work).replace(f"/tmp/seed/C{i:02d}r6", work).replace(f"/tmp/seed/C{i:02d}r5", work).replace(f"/tmp/seed/C{i:02d}r4", work).replace(f"/tmp/seed/C{i:02d}r3", work).replace(f"/tmp/seed/C{i:02d}r2", work).replace(f"/tmp/seed/C{i:02d}", work)
         open(demo_copy, "w").write(txt)
         code0, out0 = run_demo(work, demo_copy)
         a = subprocess.run(["git", "-C", work, "apply", patch], capture_output=True, text=True)
